@@ -168,7 +168,7 @@ fn many_tokens(tok: &[u8], n: usize) -> Vec<u8> {
 fn ts_variants() -> Vec<(String, Vec<u8>)> {
     use vref::der;
     let tok = rn::challenge_message(&ServerCfg::windows_like());
-    vec![
+    let mut v: Vec<(String, Vec<u8>)> = vec![
         ("empty negoTokens".into(), der::seq(&[der::explicit(0, &der::integer(2)), der::explicit(1, &der::seq(&[]))])),
         ("negoTokens item without token".into(), der::seq(&[der::explicit(0, &der::integer(2)), der::explicit(1, &der::seq(&[der::seq(&[])]))])),
         ("two negoTokens".into(), der::seq(&[der::explicit(0, &der::integer(2)), der::explicit(1, &der::seq(&[der::seq(&[der::explicit(0, &der::octets(&tok))]), der::seq(&[der::explicit(0, &der::octets(&tok))])]))])),
@@ -198,7 +198,30 @@ fn ts_variants() -> Vec<(String, Vec<u8>)> {
             }
             v
         }),
-    ]
+    ];
+    // several negoTokens of which the first is (a prefix of) an NTLM message header
+    let items = |toks: &[&[u8]]| der::seq(&[der::explicit(0, &der::integer(2)), der::explicit(1, &der::seq(&toks.iter().map(|t| der::seq(&[der::explicit(0, &der::octets(t))])).collect::<Vec<_>>()))]);
+    let sig = b"NTLMSSP\0\x02\0\0\0\x01\x02";
+    for n in [0usize, 1, 7, 8, 9, 10, 11, 12, 13, 14] {
+        v.push((format!("two negoTokens, the first the first {} bytes of an NTLM CHALLENGE header", n), items(&[&sig[..n], &tok])));
+        v.push((format!("two negoTokens, the second the first {} bytes of an NTLM CHALLENGE header", n), items(&[&tok, &sig[..n]])));
+        v.push((format!("three negoTokens of {} header bytes", n), items(&[&sig[..n], &sig[..n], &sig[..n]])));
+    }
+    // a primitive element declaring a length near 2^64, alone inside wrappers that fit it exactly, at every depth
+    for tag in [0x04u8, 0x02, 0x30, 0x0a, 0xa0] {
+        for last in [0xFFu8, 0xF0, 0x01] {
+            let hostile = vec![tag, 0x88, 0xFF, 0xFF, 0xFF, 0xFF, 0xFF, 0xFF, 0xFF, last];
+            for n in 0..5u32 {
+                let wrapped = der::explicit(n, &hostile);
+                v.push((format!("[{}] wrapping exactly {:02x} 88 ff..{:02x}, after the version", n, tag, last), der::seq(&[der::explicit(0, &der::integer(2)), wrapped.clone()])));
+                v.push((format!("[{}] wrapping exactly {:02x} 88 ff..{:02x}, alone", n, tag, last), der::seq(&[wrapped.clone()])));
+                v.push((format!("[{}] [{}] wrapping exactly {:02x} 88 ff..{:02x}", n, n, tag, last), der::seq(&[der::explicit(0, &der::integer(2)), der::explicit(n, &wrapped)])));
+            }
+            v.push((format!("negoTokens item wrapping exactly {:02x} 88 ff..{:02x}", tag, last), der::seq(&[der::explicit(0, &der::integer(2)), der::explicit(1, &der::seq(&[der::seq(&[der::explicit(0, &hostile)])]))])));
+            v.push((format!("negoTokens wrapping exactly {:02x} 88 ff..{:02x}", tag, last), der::seq(&[der::explicit(0, &der::integer(2)), der::explicit(1, &der::seq(&[hostile.clone()]))])));
+        }
+    }
+    v
 }
 
 impl C07 {
@@ -232,9 +255,16 @@ fn run_direct(entry: usize, input: &[u8]) -> String {
     let r: Result<(), String> = match entry {
         0 => cssp::read_ts_server_challenge(input).map(|_| ()).map_err(|e| format!("{:?}", e)),
         1 => {
-            let mut n = Ntlm::new("dom".into(), "user".into(), "pw".into());
+            // non-ASCII credentials: a CHALLENGE may select the OEM character set
+            let mut n = Ntlm::new("döm日".into(), "usér😀x".into(), "pä日w".into());
             let _ = n.create_negotiate_message();
-            n.read_challenge_message(input).map(|_| ()).map_err(|e| format!("{:?}", e))
+            let r = n.read_challenge_message(input).map(|_| ()).map_err(|e| format!("{:?}", e));
+            if r.is_ok() {
+                // what CredSSP would do next with an accepted challenge
+                let _ = n.build_security_interface();
+                let _ = (n.get_domain_name(), n.get_user_name(), n.get_password());
+            }
+            r
         }
         2 => cssp::read_ts_validate(input).map(|_| ()).map_err(|e| format!("{:?}", e)),
         _ => {
@@ -311,7 +341,7 @@ impl Prop for C07 {
         }})
     }
     fn rule(&self) -> String {
-        "cases: [e2e-*] the real cssp_connect inside the real Connector::connect over real TLS against the reference CredSSP server whose CHALLENGE TSRequest carries every single deviation (byte x value set, 16/32-bit boundary fields at every offset in both byte orders, truncations, extensions), whose pubKeyAuth reply carries {00, FF, truncate} at every offset, an AV-pair alphabet (every id 0..0x0C, 0xFF, 0x100, 0x7FFF, 0x8000, 0xFFFF x declared lengths {0,1,2,8,0xFFFF} x present bytes x with/without timestamp x with/without EOL; target-info/target-name descriptors at their boundaries; every flag bit toggled), TSRequest shapes (empty/missing/double negoTokens, 3/63/64/65/256/1000 negoTokens items, well-formed target information of 4000..65519 bytes, TargetInfoMaxLen != TargetInfoLen, TargetName bytes that are not valid UTF-8 / UTF-16 with the Unicode flag set and cleared, correctly sealed final replies numbered 0..2^32-1 or carrying 0..200000-byte values, errorCode, indefinite and 2^31/2^32/2^63 lengths, 200-deep nesting) in both rounds, and 19 server certificates (RSA-2048/4096, EC P-256, Ed25519, critical unknown extension, 20-byte / 40-byte / negative serial, empty subject, and DER-edited ones: X.509 v1, version 4, GeneralizedTime, invalid UTCTime, non-zero unused bits, BMPString / T61String subject, duplicate / empty extensions) with checking on/off; [direct-*] the same inputs, every single deviation with all 256 byte values, and every byte string of length <=2 (<=3) plus 3..5 (..6) byte strings over 8 boundary bytes, fed directly to read_ts_server_challenge, Ntlm::read_challenge_message, read_ts_validate and gss_unwrapex; thorough adds all pairs of {00, FF, truncate} faults on the direct entries. Oracle: returns; no panic/abort/hang; allocation rule.".into()
+        "cases: [e2e-*] the real cssp_connect inside the real Connector::connect over real TLS against the reference CredSSP server whose CHALLENGE TSRequest carries every single deviation (byte x value set, 16/32-bit boundary fields at every offset in both byte orders, truncations, extensions), whose pubKeyAuth reply carries {00, FF, truncate} at every offset, an AV-pair alphabet (every id 0..0x0C, 0xFF, 0x100, 0x7FFF, 0x8000, 0xFFFF x declared lengths {0,1,2,8,0xFFFF} x present bytes x with/without timestamp x with/without EOL; target-info/target-name descriptors at their boundaries; every flag bit toggled), TSRequest shapes (empty/missing/double negoTokens, 3/63/64/65/256/1000 negoTokens items, well-formed target information of 4000..65519 bytes, TargetInfoMaxLen != TargetInfoLen, TargetName bytes that are not valid UTF-8 / UTF-16 with the Unicode flag set and cleared, correctly sealed final replies numbered 0..2^32-1 or carrying 0..200000-byte values, errorCode, indefinite and 2^31/2^32/2^63 lengths, 200-deep nesting, several negoTokens of which one is a 0..14-byte prefix of an NTLM message header, a primitive element declaring a length near 2^64 alone inside exactly fitting [0]..[4] wrappers at three depths) in both rounds, and 19 server certificates (RSA-2048/4096, EC P-256, Ed25519, critical unknown extension, 20-byte / 40-byte / negative serial, empty subject, and DER-edited ones: X.509 v1, version 4, GeneralizedTime, invalid UTCTime, non-zero unused bits, BMPString / T61String subject, duplicate / empty extensions) with checking on/off; [direct-*] the same inputs, every single deviation with all 256 byte values, and every byte string of length <=2 (<=3) plus 3..5 (..6) byte strings over 8 boundary bytes, fed directly to read_ts_server_challenge, Ntlm::read_challenge_message, read_ts_validate and gss_unwrapex; thorough adds all pairs of {00, FF, truncate} faults on the direct entries. Oracle: returns; no panic/abort/hang; allocation rule.".into()
     }
     fn assumptions(&self) -> Vec<String> {
         vec!["memory rule: single request > 1 MiB or peak > 16 MiB + 1024 x bytes received".into()]
